@@ -90,6 +90,16 @@ def conc_requests(chk):
                             ("escaping-names", esc)):
             for j in range(1 if not thorough else 2):
                 reqs.append({"op": "cli_conc", "n": n, "specs": specs, "jitter": rng.randrange(1, 10**6), "scenario": name})
+    # interleavings in which one run finishes - and removes what it created - while others have started but not yet read
+    # their input: all processes are started, then fed one after the other
+    K = lambda: rng.randrange(0, 64)
+    stag = [["valid", "stdin", "json", "-", K()], ["valid", "stdin", "csv", "-", K()], ["valid", "file", "json", "-", K()],
+            ["syntax", "stdin", "json", "-", K()]]
+    for n in (4, 6) if not thorough else (4, 6, 8, 12):
+        reqs.append({"op": "cli_conc", "n": n, "specs": stag, "jitter": rng.randrange(1, 10**6), "scenario": "chained-input",
+                     "chained": True})
+    reqs.append({"op": "cli_conc", "n": 4, "specs": stag, "jitter": rng.randrange(1, 10**6), "scenario": "staggered-input",
+                 "stagger_ms": 700})
     return reqs
 
 
